@@ -589,6 +589,7 @@ def _scenario(ctx, case, record, P):
                                       "detail": {"note_index": i, "thresholds": [ta, tb], "sound_off": [_num(x), _num(y)]}})
                         break
     # tabular view and its inverse
+    ticks_given_beforehand = any(n.get("note_on_tick", None) is not None for n in pp.notes)
     ok, na = _call(ctx, found, pp.note_array)
     if ok:
         ok, rb = _call(ctx, found, P.PerformedPart.from_note_array, na)
@@ -609,6 +610,19 @@ def _scenario(ctx, case, record, P):
                         found.append({"key": "roundtrip-onset-changed", "what": f"note {i}: {o['note_on']} -> {r['note_on']}", "detail": det})
                     if abs(F(o["sound_off"]) - F(r["sound_off"])) > Fraction_tol(F(o["sound_off"])):
                         found.append({"key": "roundtrip-sounding-end-changed", "what": f"note {i}: {o['sound_off']} -> {r['sound_off']}", "detail": det})
+    # the resolution of the part is changed after the table has been taken once: the next table is in the new units
+    # (notes that were given ticks by an importer keep them, so only parts without given ticks are asked)
+    if not case.get("given_ticks") and not ticks_given_beforehand:
+        ppq0, mpq0 = pp.ppq, pp.mpq
+        try:
+            pp.ppq = int(ppq0) * 2 + 7
+            ok, _ = _call(ctx, found, pp.note_array)
+            pp.mpq = int(mpq0) // 3 + 1000
+            ok, _ = _call(ctx, found, pp.note_array)
+            if record:
+                ctx.extra["note_array_taken_again_after_ppq_mpq_change"] += 1
+        finally:
+            pp.ppq, pp.mpq = ppq0, mpq0
     # ticks as an importer gives them (only when every time lies exactly on the tick grid), then the
     # leading silence is removed: seconds and ticks have to move together
     if case.get("given_ticks"):
